@@ -605,7 +605,7 @@ pub fn check(prop: &dyn Property, ctx: &Ctx) -> CheckOutcome {
     coverage.insert("steps_total".into(), json!(agg.steps));
     coverage.insert(
         "simulated_time".into(),
-        json!("not applicable: solstat has no clock, timer or deadline; progress is counted in steps (environment calls + library calls)"),
+        json!("simproc/simmiri: not applicable -- solstat has no clock, timer or deadline, progress is counted in steps (environment calls + library calls + yield points). simbin: every run of the real binary sees a wall clock shifted by a seed-derived offset in [0, 3 years) (see simulated_wall_clock_seconds_spanned_by_groups_total where present)"),
     );
     coverage.insert("fault_kinds_fired".into(), json!(agg.faults));
     coverage.insert("probes".into(), json!(agg.probes));
@@ -619,7 +619,21 @@ pub fn check(prop: &dyn Property, ctx: &Ctx) -> CheckOutcome {
         "distinct_states_measure".into(),
         json!("distinct hashes of (world, findings/result) reached"),
     );
-    coverage.insert("components".into(), prop.components());
+    let mut comps = serde_json::Map::new();
+    comps.insert("simproc".into(), prop.components());
+    if engines.iter().any(|e| e == "simbin") {
+        comps.insert("simbin".into(), json!({
+            "real": ["the solstat binary built from the working tree with --cfg solstat_verif: main.rs, clap, std::fs on a real scratch tree, real exit status, real process boundaries"],
+            "stubbed": ["directory listing order and findings-map iteration order -> derived from SOLSTAT_VERIF_SEED (RealSeeded)", "wall clock -> shifted by a seed-derived offset (LD_PRELOAD interposer simclock/fakeclock.c)", "TZ/LANG/USER/HOME/COLUMNS and the location of the tree -> derived from the seed"],
+        }));
+    }
+    if engines.iter().any(|e| e == "simmiri") {
+        comps.insert("simmiri".into(), json!({
+            "real": ["solstat library incl. std HashMap with real RandomState, std::thread spawn/join, detectors, renderers (interpreted by Miri, isolation on, data-race and UB detection on)"],
+            "stubbed": ["thread schedule (preemption points) and OS entropy -> functions of the Miri seed"],
+        }));
+    }
+    coverage.insert("components".into(), Value::Object(comps));
     coverage.insert("screened_out".into(), json!(agg.screened_out));
     coverage.insert("screened_in".into(), json!(agg.screened_in));
     coverage.insert("determinism_slice_ok".into(), json!(determinism_ok));
